@@ -387,7 +387,11 @@ def gen_case(seed, tier, idx):
     if stream == 1:
         mode = ["same", "one", "one", "respell", "random", "one"][j % 6]
         a = gen_sigargs(rnd, CLS[(j // 6) % 6])
-        if mode == "same":
+        if j % 12 == 5 and a["cls"] in ("csr", "wb") and a.get("aw") != a.get("dw"):
+            mode = "swap"         # the same set of parameter values under exchanged names
+        if mode == "swap":
+            b = dict(a); b["aw"], b["dw"] = a["dw"], a["aw"]
+        elif mode == "same":
             b = dict(a)
         elif mode == "one":
             b = mutate_one(rnd, a) or dict(a)
